@@ -1903,6 +1903,8 @@ class PureProfile(BaseProfile):
 
     def call(self, segs, generics, args, em, env):
         name = segs[-1]
+        if len(segs) == 1 and self.kinds.get(name) == "keypred" and len(args) == 1:
+            return f"({ident(name)} {em.expr(args[0], env)})"       # the registry's `&dyn Fn(&str) -> bool`
         if name in self.fns and not self.fns[name]["mut_idx"]:
             return "(" + self.fn_call(name, [em.expr(a, env) for a in args]) + ")"
         if segs[-2:] == ["CacheEntry", "new"] and len(args) == 1:
@@ -1927,8 +1929,23 @@ class PureProfile(BaseProfile):
             return "(" + self.fn_call(name, ["self"] + [em.expr(a, env) for a in args]) + ")"
         R = lambda: em.expr(recv, env)
         A_ = lambda i: em.expr(args[i], env)
+        if name in ("filter", "map", "collect", "cloned") and not getattr(self, "keyed_iter", False) and uses_key_method((recv, args)):
+            # an iterator chain over a DashMap whose closures read `entry.key()`: the items are the (key, entry) pairs
+            self.keyed_iter = True
+            try:
+                return self.method(recv, name, generics, args, em, env)
+            finally:
+                self.keyed_iter = False
         if name == "iter" and not args and kind == "map":
+            if getattr(self, "keyed_iter", False):
+                return R()
             return f"(RustLite.values {R()})"          # DashMap::iter(): the entries (the translated code reads their values only)
+        if name == "key" and not args and getattr(self, "keyed_iter", False):
+            return f"(Prod.fst {R()})"                  # `entry.key()` of a DashMap iterator item
+        if name == "keys" and not args and kind == "map":
+            return f"(keys {R()})"
+        if name == "filter" and len(args) == 1:
+            return f"(List.filter {A_(0)} {R()})"
         if name == "value" and not args:
             return R()                                  # `entry.value()` of a DashMap iterator item
         if name in ("iter", "clone", "to_string", "to_owned", "into_iter", "as_str", "collect", "copied", "cloned") and not args:
@@ -1998,6 +2015,14 @@ class PureProfile(BaseProfile):
         return None
 
 
+def uses_key_method(node):
+    if isinstance(node, (list, tuple)):
+        if isinstance(node, tuple) and len(node) >= 3 and node[0] == "mcall" and node[2] == "key":
+            return True
+        return any(uses_key_method(x) for x in node)
+    return False
+
+
 def regenerate():
     """writes Generated/PureMem.lean (and, when translate_utils exists, PureUtils.lean); returns info / problems"""
     problems = []
@@ -2013,6 +2038,7 @@ def regenerate():
         problems.append(str(e) if isinstance(e, Untranslatable) else f"memory_estimator.rs: translator error {e!r}")
         text = "-- translation failed: " + str(e).replace("\n", " ") + "\n"
     write_if_changed(os.path.join(GEN_DIR, "PureMem.lean"), hdr + "namespace Mem\n\n" + text + "\nend Mem\nend Cachelito.Generated\n")
+    problems += collect_callbacks()
     for (mod, rel, _, _, _) in UTIL_FILES:
         try:
             text, uinfo, probs = translate_utils_resilient(mod)
@@ -2083,6 +2109,8 @@ def lean_type(rust, pname):
         return "Except E T", "result"
     if base == "Self":
         return None, "self"
+    if base == "KeyPredicate":
+        return "K → Bool", "keypred"
     raise Untranslatable(f"parameter / return type `{rust}`")
 
 
@@ -2107,6 +2135,115 @@ UTIL_FILES = [
      ["find_min_frequency_key", "find_arc_eviction_key", "find_tlru_eviction_key", "is_already_key_inserted",
       "handle_entry_limit_eviction", "insert", "get", "insert_with_memory"]),
 ]
+
+
+# ------------------------------------------------------------------------------------------------ the macros' registered callbacks
+# The closures `#[cache]` / `#[cache_async]` register with the invalidation registry (clear callback, conditional-invalidation
+# callback) live in `quote!` templates.  Their bodies are cut out of the CURRENT macro source at token level, the
+# interpolations `#cache_ident` / `#order_ident` become the engine's fields (`self.map` / `self.cache`, `self.order`), the
+# `#verif_*` hook interpolations disappear, and the result is translated as one more method of the engine
+# (`macro_clear_callback`, `macro_cond_callback` in Generated/PureGlobal.lean and PureAsync.lean).
+
+EXTRA_FNS = {}
+
+
+def production_tokens(rel):
+    text = open(os.path.join(REPO, rel)).read()
+    cut = text.find("#[cfg(test)]")
+    if cut >= 0:
+        text = text[:cut]
+    return tokenize(text)[:-1]
+
+
+def closure_after(toks, fname, callee, rel):
+    """(parameter names, body tokens) of the `move |…| { … }` closure passed to the only call of `callee` in `toks`"""
+    sites = [i for i in range(len(toks) - 1) if toks[i][0] == "id" and toks[i][1] == callee and toks[i + 1][1] == "("]
+    if len(sites) != 1:
+        raise Untranslatable(f"{rel}: expected exactly one call of `{callee}` in the macro, found {len(sites)}")
+    i = sites[0]
+    while i < len(toks) and not (toks[i][0] == "id" and toks[i][1] == "move"):
+        if toks[i][1] in ("{", ";"):
+            raise Untranslatable(f"{rel}: `{callee}` is no longer given a `move` closure")
+        i += 1
+    i += 1
+    params = []
+    if toks[i][1] == "||":
+        i += 1
+    elif toks[i][1] == "|":
+        i += 1
+        depth = 0
+        cur = []
+        while not (toks[i][1] == "|" and depth == 0):
+            if toks[i][1] in ("(", "<", "["):
+                depth += 1
+            if toks[i][1] in (")", ">", "]"):
+                depth -= 1
+            cur.append(toks[i]); i += 1
+        i += 1
+        if cur:
+            params.append(cur[0][1])
+            if any(t[1] == "," for t in cur):
+                raise Untranslatable(f"{rel}: the `{callee}` closure takes more than one parameter")
+    else:
+        raise Untranslatable(f"{rel}: `{callee}`: closure syntax")
+    if toks[i][1] != "{":
+        raise Untranslatable(f"{rel}: `{callee}`: the closure body is not a block")
+    depth, j = 0, i
+    while True:
+        if toks[j][1] == "{":
+            depth += 1
+        if toks[j][1] == "}":
+            depth -= 1
+            if depth == 0:
+                break
+        j += 1
+    return params, toks[i + 1:j]
+
+
+def callback_fn(rel, callee, fname, map_field):
+    toks = production_tokens(rel)
+    params, body = closure_after(toks, fname, callee, rel)
+    out = []
+    i = 0
+    while i < len(body):
+        t = body[i]
+        if t[1] == "#" and i + 1 < len(body) and body[i + 1][0] == "id":
+            name = body[i + 1][1]
+            if name.startswith("verif_"):
+                pass
+            elif name == "cache_ident":
+                out += [("id", "self", t[2]), ("p", ".", t[2]), ("id", map_field, t[2])]
+            elif name == "order_ident":
+                out += [("id", "self", t[2]), ("p", ".", t[2]), ("id", "order", t[2])]
+            else:
+                raise Untranslatable(f"{rel}: `{callee}` closure interpolates `#{name}`")
+            i += 2
+            continue
+        out.append(t)
+        i += 1
+    ln = body[0][2] if body else 0
+    T = lambda k, v: (k, v, ln)
+    head = [T("id", "fn"), T("id", fname), T("p", "("), T("p", "&"), T("id", "self")]
+    for pn in params:
+        head += [T("p", ","), T("id", pn), T("p", ":"), T("id", "KeyPredicate")]      # `&dyn Fn(&str) -> bool`
+    head += [T("p", ")"), T("p", "{")]
+    fns = Parser(head + out + [T("p", "}"), ("eof", "", ln)], rel + f" ({callee} closure)").parse_file()
+    if len(fns) != 1:
+        raise Untranslatable(f"{rel}: `{callee}` closure did not parse as one function")
+    return fns[0]
+
+
+def collect_callbacks():
+    """fills EXTRA_FNS; returns problems"""
+    EXTRA_FNS.clear()
+    problems = []
+    for (module, rel, map_field) in (("Global", "cachelito-macros/src/lib.rs", "map"), ("Async", "cachelito-async-macros/src/lib.rs", "cache")):
+        for (callee, fname) in (("register_callback", "macro_clear_callback"), ("register_invalidation_callback", "macro_cond_callback")):
+            try:
+                EXTRA_FNS.setdefault(module, []).append(callback_fn(rel, callee, fname, map_field))
+            except Exception as e:
+                problems.append(f"{module}.{fname}: " + (str(e) if isinstance(e, Untranslatable) else f"translator error {e!r}"))
+    return problems
 
 
 def desugar_with(node):
@@ -2407,7 +2544,7 @@ EXTERNAL = {}      # functions of modules translated earlier: name -> table entr
 def translate_utils_resilient(module):
     """translate as many of the module's functions as possible: a function outside the subset is dropped (and reported),
     the others are still emitted, so that only the theorems about the dropped function (and its callers) break"""
-    wanted = [w for (mod, _, _, _, ws) in UTIL_FILES if mod == module for w in ws]
+    wanted = [w for (mod, _, _, _, ws) in UTIL_FILES if mod == module for w in ws] + [f["name"] for (_, f) in EXTRA_FNS.get(module, [])]
     skip, problems = [], []
     while True:
         try:
@@ -2444,7 +2581,8 @@ def translate_utils(module, skip=()):
             continue
         wanted = [w for w in wanted if w not in skip]
         path = os.path.join(REPO, rel)
-        fns = parse_source(path)
+        fns = parse_source(path) + EXTRA_FNS.get(module, [])
+        wanted = wanted + [f["name"] for (_, f) in EXTRA_FNS.get(module, []) if f["name"] not in skip]
         byname = {}
         for (hdr, f) in fns:
             if f["name"] in wanted and f["name"] not in byname:
